@@ -31,7 +31,7 @@ ASSUMPTIONS = [
 ]
 COMPONENTS = {"real": ["pyxel.util.set_random_seed", "pyxel stochastic models", "exposure / observation paths", "dask get_async", "numpy legacy RNG"], "stub": ["thread pool", "numpy.random module functions wrapped as yield points", "pulse_processing.convert_to_phase (minutes-long physics replaced by a constant frame)"]}
 BUDGET = {"quick": {"n": 320, "wall": 110, "determinism": 4}, "thorough": {"n": 20000, "wall": 1600, "determinism": 12}}
-REQUIRED_REACH = ["pipeline_with_unseedable_model", "model:multiplication_register", "model:multiplication_register_cic", "model:sar_adc_with_noise", "model:cosmix", "model:nghxrg", "model:charge_deposition", "model:charge_deposition_in_mct", "model:conversion_with_qe_map", "kind:calibration", "prior_with_cached_gaussian", "kind:noseed-model", "kind:model", "kind:pipeline", "kind:own-seeds", "kind:failing", "path:exposure", "path:obs-seq", "path:obs-par", "seed_lock_contended", "state_checked_after_error"]
+REQUIRED_REACH = ["pipeline_with_unseedable_model", "model:multiplication_register", "model:multiplication_register_cic", "model:sar_adc_with_noise", "model:cosmix", "model:nghxrg", "model:charge_deposition", "model:charge_deposition_in_mct", "model:conversion_with_qe_map", "kind:calibration", "prior_with_cached_gaussian", "kind:noseed-model", "kind:model", "kind:pipeline", "kind:own-seeds", "kind:failing", "path:exposure", "path:obs-seq", "path:obs-par", "seed_lock_contended", "state_checked_after_error", "pipeline_seed_zero:obs-par", "pipeline_seed_zero:exposure", "dark_current_spatial_noise_only"]
 
 GROUPS = ["scene_generation", "photon_collection", "phasing", "charge_generation", "charge_collection", "charge_transfer", "charge_measurement", "signal_transfer", "readout_electronics", "data_processing"]
 
@@ -40,8 +40,8 @@ RECIPES = {
     "shot_noise": ("photon_collection", ("CCD", "CMOS", "MKID", "APD"), [{"type": "poisson"}, {"type": "normal"}], ["photon"]),
     "simple_conversion": ("charge_generation", ("CCD", "CMOS", "MKID", "APD"), [{"binomial_sampling": True}, {"quantum_efficiency": 0.7, "binomial_sampling": True}], ["photon"]),
     "simple_dark_current": ("charge_generation", ("CCD", "CMOS", "MKID", "APD"), [{"dark_rate": 20.0}], []),
-    "dark_current": ("charge_generation", ("CCD", "CMOS"), [{"figure_of_merit": 1.0, "band_gap": 1.2, "band_gap_room_temperature": 1.2, "spatial_noise_factor": 0.1, "temporal_noise": True}, {"figure_of_merit": 0.5, "temporal_noise": True}], []),
-    "dark_current_rule07": ("charge_generation", ("CCD", "CMOS"), [{"cutoff_wavelength": 2.5, "spatial_noise_factor": 0.1, "temporal_noise": True}], []),
+    "dark_current": ("charge_generation", ("CCD", "CMOS"), [{"figure_of_merit": 1.0, "band_gap": 1.2, "band_gap_room_temperature": 1.2, "spatial_noise_factor": 0.1, "temporal_noise": True}, {"figure_of_merit": 0.5, "temporal_noise": True}, {"figure_of_merit": 1.0, "spatial_noise_factor": 0.4, "temporal_noise": False}], []),
+    "dark_current_rule07": ("charge_generation", ("CCD", "CMOS"), [{"cutoff_wavelength": 2.5, "spatial_noise_factor": 0.1, "temporal_noise": True}, {"cutoff_wavelength": 2.5, "spatial_noise_factor": 0.3, "temporal_noise": False}], []),
     "dark_current_saphira": ("charge_generation", ("APD",), [{}], []),
     "radiation_induced_dark_current": ("charge_generation", ("CCD", "CMOS"), [{"depletion_volume": 64.0, "annealing_time": 0.1, "displacement_dose": 50.0, "shot_noise": True}], []),
     "fixed_pattern_noise": ("charge_collection", ("CCD", "CMOS", "MKID", "APD"), [{"fixed_pattern_noise_factor": 0.02}], ["pixel"]),
@@ -133,13 +133,19 @@ def _model_entry(name, kwargs, seed):
     return g, {"name": name, "func": f"pyxel.models.{g}.{name}", "enabled": True, "arguments": args}
 
 
+def _seed0(rng, hi=2**31):
+    """a seed value; 0 (legal, falsy) comes up about once in eight draws without using another draw"""
+    s = rng.randrange(1, hi)
+    return 0 if s % 8 == 0 else s
+
+
 def generate(rng, tier):
     if rng.random() < 0.08:
         from .. import calib
 
         scn = calib.gen_calibration(rng, tier, fit_ranges="full", multi_readout_p=0.0, weights_p=0.0, n_targets=(1, 2), islands=(1, 2, 2, 3))
         scn["kind"] = "calibration"
-        scn["mode"]["pipeline_seed"] = rng.randrange(1, 2**31)
+        scn["mode"]["pipeline_seed"] = _seed0(rng)
         scn["pipeline"]["charge_collection"][0]["arguments"]["draws"] = rng.randint(1, 3)
         scn["prior"] = [[rng.randrange(2**31), rng.randint(0, 40), rng.randint(0, 3)], [rng.randrange(2**31), rng.randint(0, 40), rng.randint(0, 3)]]
         scn["between"] = rng.choice(["none", "draws", "failed-run"])
@@ -159,7 +165,7 @@ def generate(rng, tier):
         if rng.random() > RARE.get(name, 1.0):
             name = rng.choice(sorted(n for n in RECIPES if n not in RARE))
         g, types, kws, needs = RECIPES[name]
-        scn.update({"model": name, "detector": _det_spec(rng, rng.choice(types)), "kwargs": rng.choice(kws), "seed": rng.randrange(2**31), "needs": needs, "error_path": rng.random() < 0.25})
+        scn.update({"model": name, "detector": _det_spec(rng, rng.choice(types)), "kwargs": rng.choice(kws), "seed": _seed0(rng), "needs": needs, "error_path": rng.random() < 0.25})
         return scn
     dtype = rng.choice(["CCD", "CMOS", "CMOS", "APD", "MKID"])
     scn["detector"] = _det_spec(rng, dtype)
@@ -214,7 +220,7 @@ def generate(rng, tier):
     scn["readout"] = {"times": [1.0, 2.5][: rng.randint(1, 2)], "start_time": 0.0, "non_destructive": rng.random() < 0.5}
     path = rng.choice(["exposure", "obs-seq", "obs-par", "obs-par"])
     scn["path"] = path
-    seed = None if own else rng.randrange(1, 2**31)
+    seed = None if own else _seed0(rng)
     if path == "exposure":
         scn["mode"] = {"kind": "exposure", "pipeline_seed": seed}
     else:
@@ -456,6 +462,11 @@ def _judge(scn, kind, digests, excs, infos, restored, viol, stats):
     if kind in ("model", "noseed-model"):
         feat = f"model:{scn['model']}" + ("+error-path" if scn.get("error_path") else "")
         stats["model:" + scn["model"]] = 1
+        if scn["model"].startswith("dark_current") and scn["kwargs"].get("temporal_noise") is False:
+            stats["dark_current_spatial_noise_only"] = 1
+            feat += "+spatial-only"
+        if scn.get("seed") == 0:
+            stats["model_seed_zero"] = 1
     elif kind == "calibration":
         overlap = max((i.get("overlap", 0) for i in infos), default=0)
         if overlap:
@@ -467,6 +478,8 @@ def _judge(scn, kind, digests, excs, infos, restored, viol, stats):
         stats["path:" + scn["path"]] = 1
         overlap = max((i.get("overlap", 0) for i in infos), default=0)
         seeded = scn["mode"].get("pipeline_seed") is not None
+        if scn["mode"].get("pipeline_seed") == 0:
+            stats["pipeline_seed_zero:" + scn["path"]] = 1
         names = sorted(m["name"] for _, m in world.all_models(scn) if m["func"].startswith("pyxel."))
         if scn["path"] == "obs-par" and overlap and not scn["sched"].get("procs"):
             stats["rng_overlap_runs"] = 1
